@@ -28,7 +28,7 @@ func init() {
 		QuickBudget: 40 * time.Second, ThoroughBudget: 12 * time.Minute,
 		MinRuns:        50,
 		Exec:           runC09,
-		ExpectedProbes: []string{"revert-after-earlier-finalise", "revert-skipping-inner-snapshots", "inner-revert-with-outer-live", "continued-on-reopened-state", "contract-focus-run"},
+		ExpectedProbes: []string{"revert-after-earlier-finalise", "revert-skipping-inner-snapshots", "inner-revert-with-outer-live", "continued-on-reopened-state", "contract-focus-run", "staking-focus-run"},
 		PanicClass:     kit.PanicInRepo("state-panic"),
 	})
 }
@@ -43,7 +43,17 @@ func runC09(r *kit.Run) {
 	env := newEnv()
 	m := &Mutator{r: r, ValidatorWeight: c.Intn("valweight", 3)}
 	st := env.St
-	if c.Chance("contract-focus", 1, 2) {
+	mode := c.Weighted("focus", []int{2, 3, 2}) // 0 = uniform mix, 1 = contract focus, 2 = staking focus
+	if mode == 2 {
+		// swarm: validator-side mutations dominate, delegations most of all, from one or two
+		// delegators (their lists of validators grow, shrink and grow again within a run)
+		m.ValidatorWeight = 3 + c.Intn("valweight-focus", 3)
+		m.DelegationWeight = 2 + c.Intn("delegation-weight", 3)
+		m.NDelegators = 1 + c.Intn("ndelegators", 2)
+		r.Logf("staking-focus: valweight=%d delegation-weight=%d delegators=%d", m.ValidatorWeight, m.DelegationWeight, m.NDelegators)
+		r.Probe("staking-focus-run")
+	}
+	if mode == 1 {
 		// swarm: half of the runs concentrate on a few deployed contracts and slots
 		m.Hot = []common.Address{accounts[0], accounts[1]}
 		m.HotSlots = 1 + c.Intn("hot-slots", 2)
